@@ -15,6 +15,7 @@ package main
 
 import (
 	"fmt"
+	"go/ast"
 	"go/constant"
 	"go/token"
 	"go/types"
@@ -390,6 +391,8 @@ func checkC01(p *Program, r *Report) {
 	c01Body(p, r, vers, leg)
 	c01Registry(p, r, codecs)
 	c01FieldCoverage(p, r, codecs, vers)
+	c01ElisionPredicate(p, r)
+	c02BitAssembly(p, r)
 }
 
 // c01Pair compares one encoder/decoder pair for one version; returns the number of writer paths.
@@ -771,6 +774,111 @@ func c01Body(p *Program, r *Report, vers []constant.Value, leg legality) {
 			r.Fail("enc-vs-dec", key, enc.Pos(), "no legal encoder path")
 		} else {
 			r.OKf("enc-vs-dec", key, enc.Pos(), "%d legal flag/direction combinations agree", checked)
+		}
+	}
+}
+
+// c01ElisionPredicate: under the global-table-spec flag the encoder writes the keyspace/table of the
+// first column once and omits them for every column; the decoder copies the first pair to all
+// columns. That is lossless only if the predicate deriving the flag (haveSameTable) compares exactly
+// the omitted fields, each with itself, for every element. Decided structurally: the omitted fields
+// are read off the encoder; the predicate must contain, per omitted field F, an (in)equality whose
+// operands are both plain reads of F (the element's F against a variable holding an element's F).
+func c01ElisionPredicate(p *Program, r *Report) {
+	pk := p.Pkg("message")
+	info := pk.TypesInfo
+	encFn := p.LookupFunc("message", "encodeColumnsMetadata")
+	pred := p.LookupFunc("message", "haveSameTable")
+	encDecl, _ := p.Decl(encFn)
+	predDecl, _ := p.Decl(pred)
+	// omitted fields: selectors on the range variable inside `if !<bool param> { ... }` in a range loop
+	omitted := map[string]bool{}
+	ast.Inspect(encDecl.Body, func(n ast.Node) bool {
+		rs, ok := n.(*ast.RangeStmt)
+		if !ok {
+			return true
+		}
+		ast.Inspect(rs.Body, func(m ast.Node) bool {
+			is, ok := m.(*ast.IfStmt)
+			if !ok {
+				return true
+			}
+			ue, ok := ast.Unparen(is.Cond).(*ast.UnaryExpr)
+			if !ok || ue.Op != token.NOT {
+				return true
+			}
+			ast.Inspect(is.Body, func(k ast.Node) bool {
+				if se, ok := k.(*ast.SelectorExpr); ok {
+					if sel := info.Selections[se]; sel != nil && sel.Kind() == types.FieldVal {
+						if named := namedOf(sel.Recv()); named != nil && named.Obj().Name() == "ColumnMetadata" {
+							omitted[sel.Obj().Name()] = true
+						}
+					}
+				}
+				return true
+			})
+			return true
+		})
+		return true
+	})
+	if len(omitted) == 0 {
+		fatalf("anchor: encodeColumnsMetadata omits no per-column field under the global table spec flag")
+	}
+	// variables assigned from a plain field read, by field name
+	heldField := map[types.Object]string{}
+	fieldOf := func(e ast.Expr) string {
+		se, ok := ast.Unparen(e).(*ast.SelectorExpr)
+		if !ok {
+			return ""
+		}
+		if sel := info.Selections[se]; sel != nil && sel.Kind() == types.FieldVal {
+			if _, isIdent := ast.Unparen(se.X).(*ast.Ident); isIdent {
+				return sel.Obj().Name()
+			}
+		}
+		return ""
+	}
+	ast.Inspect(predDecl.Body, func(n ast.Node) bool {
+		if as, ok := n.(*ast.AssignStmt); ok && len(as.Lhs) == len(as.Rhs) {
+			for i, l := range as.Lhs {
+				if id, ok := l.(*ast.Ident); ok {
+					if f := fieldOf(as.Rhs[i]); f != "" {
+						if obj := info.ObjectOf(id); obj != nil {
+							heldField[obj] = f
+						}
+					}
+				}
+			}
+		}
+		return true
+	})
+	compared := map[string]bool{}
+	ast.Inspect(predDecl.Body, func(n ast.Node) bool {
+		be, ok := n.(*ast.BinaryExpr)
+		if !ok || (be.Op != token.EQL && be.Op != token.NEQ) {
+			return true
+		}
+		side := func(e ast.Expr) string {
+			if f := fieldOf(e); f != "" {
+				return f
+			}
+			if id, ok := ast.Unparen(e).(*ast.Ident); ok {
+				return heldField[info.ObjectOf(id)]
+			}
+			return ""
+		}
+		a, b := side(be.X), side(be.Y)
+		if a != "" && a == b {
+			compared[a] = true
+		}
+		return true
+	})
+	for f := range omitted {
+		key := "haveSameTable compares " + f
+		if compared[f] {
+			r.OKf("elision-predicate", key, pred.Pos(), "field %s, omitted per column under the flag, is compared with itself across elements", f)
+		} else {
+			r.Fail("elision-predicate", key, pred.Pos(), "the encoder omits ColumnMetadata.%s for every column when haveSameTable holds, but haveSameTable does not compare %s with %s element by element: columns with different %s values can be merged into the first one's", f, f, f, f)
 		}
 	}
 }
